@@ -14,7 +14,7 @@ open Pyr Pyr.Trav Pyr.Pct Pyr.Url
 
 /-! ## 0. obligations over the generated tables (decided over the whole table) -/
 
-/-- the translator recognised every quoting call site of the current source -/
+/-- the probe of the running URL helpers (extract/c17.py) ran and could be read -/
 theorem gen_recognised : Gen.recognised = true := by decide
 
 /-- every extracted safe set lies inside the RFC 3986 class of the component it is used in, never holds `%`;
@@ -25,7 +25,8 @@ theorem gen_safe_sets_ok : genOk = true := by decide +kernel
 
 theorem gen_facts : GenFacts := genFacts_of_genOk gen_safe_sets_ok
 
-/-- the named constants are what the call sites use (a call site switched to another constant shows here) -/
+/-- the probed sets are the named module constants (minus urllib's always-safe characters): a position quoted
+with another set than its constant shows here -/
 theorem gen_sites_use_the_constants :
     Gen.elementSafe = Gen.constPathSegmentSafe ∧ Gen.resNameSafe = Gen.constPathSegmentSafe ∧
     Gen.scriptSafe = Gen.constPathSafe ∧ Gen.routeValSafe = Gen.constPathSafe ∧
